@@ -6,7 +6,7 @@ state.  Core Lean only.
 The invariant carried through histories is `HeapOK`: every object has a well-formed style and a cache
 that — *for the colour system it is tagged with* — holds what `_make_ansi_codes` would compute afresh.
 The repaired code (`ansiCacheUnkeyed = false`) only ever uses a cache entry for its own colour system,
-so the invariant is enough; today's code does not, which is where `old_…` in Props/C03 comes from.
+so the invariant is enough; rich 9.10.0 as found (before fix c9ec5a8) does not, which is where `old_…` in Props/C03 comes from.
 -/
 namespace RichModel.AnsiRender
 open RichModel RichModel.AnsiTerm
